@@ -8,7 +8,8 @@ Values are printed exactly as `m:e` (value = m·2^e, m odd) in both modes.
 import SharkVerif.Model.Kernels
 import SharkVerif.Model.KernelDerivs
 import SharkVerif.Model.KernelGrad
-open SharkVerif.Kernels
+import SharkVerif.Model.KernelChain
+open SharkVerif SharkVerif.Kernels SharkVerif.Models
 
 class DrvScalar (α : Type) extends Add α, Sub α, Mul α, Div α, Neg α, BEq α where
   zero : α
@@ -17,6 +18,7 @@ class DrvScalar (α : Type) extends Add α, Sub α, Mul α, Div α, Neg α, BEq 
   render : α → String
   exp : α → α
   sqrt : α → α
+  tanh : α → α
 
 instance {α : Type} [DrvScalar α] : OfNat α 0 := ⟨DrvScalar.zero⟩
 instance {α : Type} [DrvScalar α] : OfNat α 1 := ⟨DrvScalar.one⟩
@@ -58,6 +60,7 @@ instance : DrvScalar Rat where
   render := renderRat
   exp := fun x => if x == 0 then 1 else 0       -- exact mode reaches exp at 0 only
   sqrt := ratSqrt
+  tanh := fun _ => 0                            -- exact mode: linear / rectifier layers only
 
 /-! ### Float -/
 def renderFloat (x : Float) : String :=
@@ -82,10 +85,11 @@ instance : DrvScalar Float where
   render := renderFloat
   exp := Float.exp
   sqrt := Float.sqrt
+  tanh := Float.tanh
 
 /-! ### parsing -/
 section
-variable {α : Type} [DrvScalar α]
+variable {α : Type} [DrvScalar α] [Scalar α]
 
 /-- `m:e` or a plain integer -/
 def parseVal (s : String) : Option α :=
@@ -172,6 +176,47 @@ where
         let (ks, rest) ← parseKerns n rest
         pure (k :: ks, rest)
 
+/-! ### ModelKernel over a ConcatenatedModel chain: `mnet L spec.. params..` (specs as in Driver/C04.lean) -/
+def parseActC : String → Option Act
+  | "linear" => some .linear | "rectifier" => some .rectifier | "tanh" => some .tanh
+  | "logistic" => some .logistic | "fastsigmoid" => some .fastSigmoid | _ => none
+
+def mkDenseC (act : Act) (hasB : Bool) (nIn nOut : Nat) (p : List α) : Dense α :=
+  let m : Dense α := { nIn := nIn, nOut := nOut, W := fun _ _ => 0, hasB := hasB, b := fun _ => 0, act := act }
+  let pa := p.toArray
+  { m with W := fun k j => pa.getD (k * nIn + j) 0, b := fun k => pa.getD (nOut * nIn + k) 0 }
+
+/-- layer specs → chain; returns the chain, its output dimension and the unused parameters -/
+def parseNet : List String → Nat → List α → Option (Chain α × Nat × List α)
+  | [], nIn, p => some ([], nIn, p)
+  | sp :: rest, nIn, p =>
+    match sp.splitOn ":" with
+    | ["d", act, hb, nOut, opt] =>
+      match parseActC act, nOut.toNat? with
+      | some act, some nOut =>
+        let np := nOut * nIn + (if hb == "1" then nOut else 0)
+        if p.length < np || nOut == 0 then none else
+        match parseNet rest nOut (p.drop np) with
+        | some (tail, n2, p2) => some ((Layer.dense (mkDenseC act (hb == "1") nIn nOut (p.take np)), opt == "1") :: tail, n2, p2)
+        | none => none
+      | _, _ => none
+    | ["n", act, opt] =>
+      match parseActC act with
+      | some act =>
+        match parseNet rest nIn p with
+        | some (tail, n2, p2) => some ((Layer.neuron act nIn, opt == "1") :: tail, n2, p2)
+        | none => none
+      | none => none
+    | ["r", kind, opt] =>
+      let k? : Option RowKind := if kind == "softmax" then some .softmax else if kind == "normalizer" then some .normalizer else none
+      match k? with
+      | some k =>
+        match parseNet rest nIn p with
+        | some (tail, n2, p2) => some ((Layer.rowact k nIn, opt == "1") :: tail, n2, p2)
+        | none => none
+      | none => none
+    | _ => none
+
 def chunk (d : Nat) : Nat → List α → List (List α)
   | 0, _ => []
   | n + 1, xs => xs.take d :: chunk d n (xs.drop d)
@@ -196,6 +241,8 @@ structure St (α : Type) where
   ttable : Option (Mat α) := none
   -- MklKernel over pairs (x[0,da), x[da,d)): the split position
   mklSplit : Nat := 0
+  -- ModelKernel over a ConcatenatedModel chain over the current kernel: the chain and its input dimension
+  net : Option (Chain α × Nat) := none
 
 def seg {β : Type} (xs : List β) (a b : Nat) : List β := (xs.drop a).take (b - a)
 
@@ -207,6 +254,7 @@ def step (s : St α) (line : String) : St α × String :=
   let toks := if toks.head? == some "mk" then toks.drop 1 else toks     -- `mk <op>`: an op on the MklKernel object
   let ex := (DrvScalar.exp : α → α)
   let sq := (DrvScalar.sqrt : α → α)
+  let th := (DrvScalar.tanh : α → α)
   match toks with
   | [] => (s, "")
   | "kern" :: "disc" :: n :: ts =>
@@ -222,12 +270,12 @@ def step (s : St α) (line : String) : St α × String :=
       match parseKern (α := α) rest with
       | some (k2, []) =>
         let k := subrangeKernel ex [p] [(0, da, k1), (da, 1000000, k2)]
-        ({ s with kern := some k, table := none, sets := [], norm := (KObj.construct k).normFlag, ad := false, kexp := none, ttable := none }, "ok")
+        ({ s with kern := some k, table := none, sets := [], norm := (KObj.construct k).normFlag, ad := false, kexp := none, ttable := none, net := none }, "ok")
       | _ => (s, "bad-op")
     | _, _, _ => (s, "bad-op")
   | "kern" :: ts =>
     match parseKern (α := α) ts with
-    | some (k, []) => ({ s with kern := some k, table := none, sets := [], norm := (KObj.construct k).normFlag, ad := false, kexp := none, ttable := none }, "ok")
+    | some (k, []) => ({ s with kern := some k, table := none, sets := [], norm := (KObj.construct k).normFlag, ad := false, kexp := none, ttable := none, net := none }, "ok")
     | _ => (s, "bad-op")
   | "pts" :: n :: d :: ts =>
     match n.toNat?, d.toNat? with
@@ -257,6 +305,8 @@ def step (s : St α) (line : String) : St α × String :=
       | "dcheck", _ => (s, "ok")
       | "stale", _ => (s, "ok")
       | "gderiv", _ => (s, "ok")
+      | "gramt", _ => (s, "ok")
+      | "reuse", _ => (s, "ok")
       | "pderiv", .inl a :: .inl b :: .inl c :: .inl d :: cs =>
         if !k.hasParamDeriv then (s, "unsupported") else
         let C := chunk (d - c) (b - a) (cs.map valOf)
@@ -282,6 +332,67 @@ def step (s : St α) (line : String) : St α × String :=
           (s, showMat (M.toRows n n))
       | _, _ => (s, "bad-op")
     | _, _ => (s, "bad-op")
+  | "mnet" :: L :: ts =>
+    match L.toNat?, s.kern with
+    | some L, some k =>
+      let nIn := (s.pts.headD []).length
+      match parseVals (α := α) (ts.length - L) (ts.drop L) with
+      | some (ps, []) =>
+        match parseNet (ts.take L) nIn ps with
+        | some (c, _, []) =>
+          if L == 0 || s.pts.isEmpty then (s, "bad-op") else
+          ({ s with net := some (c, nIn) },
+            s!"ok np={k.numParamsA s.ad + Chain.numberOfParameters c} pd={if k.hasParamDeriv && k.hasInputDeriv then 1 else 0}")
+        | _ => (s, "bad-op")
+      | _ => (s, "bad-op")
+    | _, _ => (s, "bad-op")
+  | "mn" :: op :: args =>
+    match s.kern, s.net, args.mapM parseNatOrVal with
+    | some k, some (c, nIn), some a =>
+      let g (X : Mat α) : Mat α := chainEvalM th ex c nIn X
+      let blk (X1 X2 : Mat α) : Mat α := modelKernelBlock (k.evalBlock ex sq) g X1 X2
+      let blkS (X1 X2 : Mat α) : Mat α := modelKernelBlock (k.evalBlockS ex sq) g X1 X2
+      let single (x z : Point α) : α := k.eval ex sq ((g [x]).headD []) ((g [z]).headD [])
+      let pd := k.hasParamDeriv && k.hasInputDeriv
+      let pgrad (C X1 X2 : Mat α) : List α :=
+        modelKernelParamGrad (k.paramGradA ex sq s.ad) (k.inputGradA ex sq s.ad) g (chainGradM th ex c) C X1 X2
+      let np := k.numParamsA s.ad + Chain.numberOfParameters c
+      let pt (i : Nat) : Point α := s.pts.getD i []
+      match op, a with
+      | "single", [.inl i, .inl j] => (s, DrvScalar.render (single (pt i) (pt j)))
+      | "block", [.inl a, .inl b, .inl c', .inl d] => (s, showMat (blk (seg s.pts a b) (seg s.pts c' d)))
+      | "sblock", [.inl a, .inl b, .inl c', .inl d] => (s, showMat (blkS (seg s.pts a b) (seg s.pts c' d)))
+      | "fdist", [.inl i, .inl j] =>
+        (s, DrvScalar.render (single (pt i) (pt i) - two * single (pt i) (pt j) + single (pt j) (pt j)))
+      | "flags", [] => (s, s!"norm=0 np={np}")
+      | "dcheck", _ => (s, "ok")
+      | "stale", _ => (s, "ok")
+      | "gderiv", _ => (s, "ok")
+      | "gramt", _ => (s, "ok")
+      | "reuse", _ => (s, "ok")
+      | "setparams", ps =>
+        if ps.length == np then
+          let vs := ps.map valOf
+          ({ s with kern := some (k.setParamsA ex s.ad (vs.take (k.numParamsA s.ad))),
+                    net := some (Chain.setParams c (vs.drop (k.numParamsA s.ad)), nIn) }, "ok")
+        else (s, "bad-op")
+      | "pderiv", .inl a :: .inl b :: .inl c' :: .inl d :: cs =>
+        if !pd then (s, "unsupported") else
+        (s, "g=" ++ showRow (pgrad (chunk (d - c') (b - a) (cs.map valOf)) (seg s.pts a b) (seg s.pts c' d)))
+      | "gderivx", sizes =>
+        match sizes.mapM natOf with
+        | none => (s, "bad-op")
+        | some sizes =>
+          if !pd then (s, "unsupported") else
+          (s, "g=" ++ showRow (gramParamDeriv vadd (vscale two) (List.replicate np 0) pgrad gramW (splitSizes s.pts sizes)))
+      | "gram", reg :: sizes =>
+        match sizes.mapM natOf with
+        | none => (s, "bad-op")
+        | some sizes =>
+          let n := sizes.foldl (· + ·) 0
+          (s, showMat ((regularizedGram blk (valOf reg) (splitSizes s.pts sizes)).toRows n n))
+      | _, _ => (s, "bad-op")
+    | _, _, _ => (s, "bad-op")
   | "ipts" :: ts =>
     match ts.mapM String.toNat? with
     | some is => ({ s with ipts := is }, s!"ok {is.length}")
@@ -305,6 +416,8 @@ def step (s : St α) (line : String) : St α × String :=
           (s, showMat ((KObj.mk k s.norm).featureDistanceBlock ex sq (seg s.pts a b) (seg s.pts c d)))
         | "dcheck", _ => (s, "ok")
         | "stale", _ => (s, "ok")
+        | "gramt", _ => (s, "ok")
+        | "reuse", _ => (s, "ok")
         | "unitvar", _ => (s, "ok")
         | "gderiv", _ => (s, "ok")
         | "flags", [] => (s, s!"norm={if s.norm then 1 else 0} np={k.numParamsA s.ad}")
@@ -390,6 +503,7 @@ def step (s : St α) (line : String) : St α × String :=
           | some tab =>
             let data := s.pts.zip s.tasks
             (s, showMat (multiTaskBlock (k.evalBlock ex sq) tab (seg data a b) (seg data c d)))
+        | "mt", [.inl 3, .inl _, .inl _] => (s, if s.ttable.isSome then "ok" else "bad-op")   -- thread sweep: oracle only
         | "mt", .inl 2 :: reg :: sizes =>           -- mt 2 reg sizes : Gram matrix
           match s.ttable, sizes.mapM natOf with
           | some tab, some sizes =>
@@ -424,6 +538,7 @@ def step (s : St α) (line : String) : St α × String :=
         | "sblock", [.inl a, .inl b, .inl c, .inl d] =>
           (s, showMat (discreteBlock t (seg s.ipts a b) (seg s.ipts c d)))
         | "dcheck", _ => (s, "ok")
+        | "gramt", _ => (s, "ok")
         | "fdist", [.inl i, .inl j] =>
           let k11 := discreteEval t (ip i) (ip i)
           let k12 := discreteEval t (ip i) (ip j)
